@@ -63,7 +63,7 @@ SCHEMA_FNS = [SP + n for n in ('basic_key', 'identifier', 'get_required', 'get_o
                                'push_prefix', 'pop_prefix', 'get_classname', 'loadComponent', 'end_multikey',
                                'characters_default')] + ['schema.SchemaParser.extendSchema'] + \
              ['schema.ComponentParser.' + n for n in ('_check_not_toplevel', 'start_key', 'start_multikey', 'start_section',
-                                                     'start_multisection')]
+                                                     'start_multisection', 'start_component', 'end_component')]
 
 PROPS = {
     'C01': {'functions': INFO_MATCH + MATCHER + LOADER_CFG, 'standin': True},
